@@ -55,9 +55,14 @@ def c02_module(name, dfa, rs, ncls, leaves):
     s = 'Module %s.\n' % name
     s += 'Definition A : dfa := %s.\n' % dfa_term(dfa)
     s += 'Definition rs : list (N * re) := Eval vm_compute in match mk_rs %s with Some l => l | None => [] end.\n' % rs_t
+    # each fact is evaluated once, by the kernel's VM at Qed (vm_cast_no_check does not compute)
+    s += 'Lemma check1 : equiv_check tbll tblc A ms rs (%s) = true.\nProof. vm_cast_no_check (eq_refl true). Qed.\n' % FUEL
+    s += ('Lemma check2 : (start_not_accepting A && wf_dfa %d A && dfa_okb A && Nat.eqb (length rs) %d%%nat)%%bool = true.\n'
+          'Proof. vm_cast_no_check (eq_refl true). Qed.\n' % (ncls, len(rs)))
     s += ('Theorem checks : equiv_check tbll tblc A ms rs (%s) = true /\\ start_not_accepting A = true /\\ '
           'wf_dfa %d A = true /\\ dfa_okb A = true /\\ length rs = %d%%nat.\n' % (FUEL, ncls, len(rs)))
-    s += 'Proof. vm_compute. repeat split; reflexivity. Qed.\n'
+    s += ('Proof. pose proof check2 as H. apply andb_true_iff in H as [H H4]. apply andb_true_iff in H as [H H3]. '
+          'apply andb_true_iff in H as [H1 H2]. apply Nat.eqb_eq in H4. repeat split; auto. exact check1. Qed.\n')
     s += ('Theorem inst : forall w, w <> [] -> Forall (fun c => In c ms) w -> forall t,\n'
           '  accepts_tok tblc A w t <-> exists r, In (t,r) rs /\\ mt tbll r w.\n')
     s += 'Proof. apply (equiv_check_sound tbll tblc A ms rs (%s)). apply checks. Qed.\n' % FUEL
@@ -87,9 +92,10 @@ def pair_module(name, a, b, diag=False):
               'if Nat.leb (length (trans B)) (length (trans A)) then 1 else 0],\n'
               '  match find_cex_aut tblc A B ms (N.to_nat 3000) with Some (w, p, a) => [w; p; a] | None => [] end).\n' % FUEL)
     else:
+        s += 'Lemma check1 : aut_equiv_check tblc A B ms (%s) = true.\nProof. vm_cast_no_check (eq_refl true). Qed.\n' % FUEL
         s += ('Theorem checks : aut_equiv_check tblc A B ms (%s) = true /\\ Nat.leb (length (trans B)) (length (trans A)) = true /\\ '
               'Nat.eqb (length (trans B)) (length (fin B)) = true.\n' % FUEL)
-        s += 'Proof. vm_compute. repeat split; reflexivity. Qed.\n'
+        s += 'Proof. split; [exact check1|]. split; vm_cast_no_check (eq_refl true). Qed.\n'
         s += ('Theorem inst : forall w, Forall (fun c => In c ms) w -> forall t, accepts_tok tblc A w t <-> accepts_tok tblc B w t.\n'
               'Proof. apply (aut_equiv_check_sound (fun _ _ => false) tblc A B ms (%s)). apply checks. Qed.\n' % FUEL)
     s += 'End %s.\n' % name
